@@ -36,10 +36,11 @@ type Renderer struct {
 	allocOrd map[*ssa.Alloc]int
 	// subst renders parameters as the caller's argument terms (context-
 	// sensitive rendering used by the interprocedural walkers).
-	subst    map[*ssa.Parameter]string
+	subst map[*ssa.Parameter]string
 	// inlineGetters: render calls of pure field getters as the field path (opt-in per rule)
 	inlineGetters bool
-	loopSyms map[*ssa.Phi]string
+	noInline      bool // render helper calls as calls
+	loopSyms      map[*ssa.Phi]string
 	// inlineDepth: nesting of helper bodies rendered in place of their calls (see inlineResults)
 	inlineDepth int
 	// phiPick renders the listed phis as one chosen operand (the value on one incoming edge):
@@ -68,6 +69,9 @@ func newHelper(f *ssa.Function) bool {
 // expressions with the arguments substituted for its parameters (φ over several returns).
 func (r *Renderer) inlineResults(c *ssa.CallCommon, depth int) ([]string, bool) {
 	f, ok := c.Value.(*ssa.Function)
+	if r.noInline {
+		return nil, false
+	}
 	if !ok || c.IsInvoke() || !(newHelper(f) || (r.inlineGetters && pureGetter(f))) || r.inlineDepth >= 3 || f == r.fn {
 		return nil, false
 	}
